@@ -72,6 +72,8 @@ func VH_C13_prom_labels_arith() {
 	from := vrt.Int64("start-seconds")
 	to := vrt.Int64("end-seconds")
 	vrt.Assume(from >= 1000000000)
+	vrt.Assume(from < 4000000000) // implied; stated for the engine's interval reasoning
+	vrt.Assume(to >= 1000000000)
 	vrt.Assume(to < 4000000000)
 	vrt.Assume(from <= to)
 	// the caller's time.UnixMilli(hint) is taken as given: whole seconds plus a sub-second part
